@@ -14,8 +14,15 @@
   #include <synch.h>
 #endif
 
+#ifdef XENIUM_VERIF
+extern "C" void xenium_verif_pause();
+#endif
+
 namespace xenium::detail {
 inline void hardware_pause() {
+#ifdef XENIUM_VERIF
+  ::xenium_verif_pause();
+#endif
   // TODO - add pause implementations for ARM + Power
 #if defined(XENIUM_ARCH_X86)
   _mm_pause();
